@@ -21,7 +21,8 @@ RULE = ("streams of calls (motif name, graph, root, substitution for phi and for
         "compared before/after every call (data and iteration order); in 40% of the streams a second (decoy) evaluator is "
         "alive and fed other motifs under the same names; a third of the small graphs and all random ones carry "
         "non-contiguous labels up to 257 in shuffled insertion order; a malformed stream (root not in "
-        "the motif). Non-trivial = the call's motif contains a cycle and the polynomial has >= 6 monomials; distinct "
+        "the motif); the corpus starts with focal vertex 0 in motifs whose first inserted vertex is another one (and phi = 0 / "
+        "u_v = 0 as Poly, int, float). Non-trivial = the call's motif contains a cycle and the polynomial has >= 6 monomials; distinct "
         "by (nodes, edges, root, substitution)")
 EXHAUSTIVE = {"quick": True, "thorough": True}
 EXPLANATION = ("C15_identity_general (= C15_full, PROVED): for EVERY well-formed motif of any size with arbitrary vertex labels, "
@@ -75,6 +76,7 @@ LEVEL_NOTE = ("Trusted: Coq kernel incl. vm_compute (bounded reflection theorems
               "model (enum_ord); the value is proved order-independent (C15_identity_general_any_order).")
 
 IMPL_TIMEOUT = 120.0
+BATCH = 12      # streams are slow; core stops after the first batch that holds a concrete violation
 
 
 # ----------------------------------------------------------------- helpers
@@ -225,6 +227,22 @@ def corpus():
                           _call(1, [4], [], 4, _ident_sub([4])),
                           _call(2, [0, 1, 2, 3], [[1, 2]], 1, _ident_sub([0, 1, 2, 3])),
                           _call(2, [0, 1, 2, 3], [[1, 2]], 0, _ident_sub([0, 1, 2, 3]))]})
+    # FALSY BUT LEGAL VALUES: the focal vertex 0 (also phi = 0, u_v = 0 as Poly / int / float) in motifs that are not
+    # vertex transitive and whose FIRST inserted vertex is another one (C15-r2-2: `if not root: root = first vertex`)
+    zero_late = [([3, 2, 0, 1], [[2, 3], [0, 1], [1, 2], [0, 2]]),             # triangle 0-1-2 with tail 2-3
+                 ([2, 1, 0], [[2, 1], [1, 0]]),                                 # path, 0 is an end point
+                 ([5, 0, 4, 7], [[5, 0], [5, 4], [5, 7]]),                      # star, 0 is a leaf
+                 ([9, 3, 0, 7, 1], [[9, 3], [3, 0], [0, 9], [0, 7], [7, 1], [1, 0]]),   # bow-tie, 0 is the centre
+                 ([4, 3, 2, 1, 0], [[4, 3], [3, 2], [2, 1], [1, 0], [0, 4], [3, 0]])]   # house-like, 0 inserted last
+    calls = []
+    for name, (nodes, edges) in enumerate(zero_late):
+        calls.append(_call(name, nodes, edges, 0, _ident_sub(nodes)))
+        calls.append(_call(name, nodes, edges, nodes[0], _ident_sub(nodes)))
+    for name, (nodes, edges) in enumerate(zero_late):
+        calls.append(_call(name, nodes, edges, 0, {"phi": [0, 0, name % 3], "u": []}))
+        calls.append(_call(name, nodes, edges, 0, {"phi": [1, 1, 0], "u": [[nodes[0], [0, 0, (name + 1) % 3]]]}))
+    out.insert(0, {"calls": calls[:len(zero_late) * 2]})
+    out.append({"calls": calls, "reuse": True, "decoy": True})
     return out
 
 
